@@ -2,6 +2,7 @@ package checks
 
 import (
 	"io"
+	stdlog "log"
 	"os"
 
 	"github.com/bmeg/grip/log"
@@ -13,6 +14,7 @@ func init() {
 	if os.Getenv("VERIF_LOG") == "" {
 		log.GetLogger().SetOutput(io.Discard)
 		log.GetLogger().SetLevel(logrus.PanicLevel)
+		stdlog.SetOutput(io.Discard) // jobstorage logs every job with the standard logger
 	}
 }
 
